@@ -41,8 +41,8 @@ class C01Check:
     assumptions = ENGINE_ASSUMPTIONS
     components = ENGINE_COMPONENTS
     tiers = {
-        "quick": {"budget_s": 75, "runs_per_fork": 4, "run_timeout": 120, "shrink_budget": 60},
-        "thorough": {"budget_s": 900, "runs_per_fork": 4, "run_timeout": 120, "shrink_budget": 240},
+        "quick": {"budget_s": 75, "runs_per_fork": 20, "run_timeout": 40, "shrink_budget": 60},
+        "thorough": {"budget_s": 900, "runs_per_fork": 20, "run_timeout": 40, "shrink_budget": 240},
     }
     bias = None
     kwargs = {}
@@ -56,10 +56,9 @@ class C01Check:
         mine = []
         for v in violations:
             if v["oracle"].startswith(self.oracle_prefixes):
-                v = dict(v)
-                v["oracle"] = self.rename.get(v["oracle"], v["oracle"])
-                v = self.refine(v)
+                v = self.refine(dict(v))
                 if v is not None:
+                    v["oracle"] = self.rename.get(v["oracle"], v["oracle"])
                     mine.append(v)
         seen = set()
         uniq = []
